@@ -1,8 +1,8 @@
 #!/bin/bash
-# usage: seed2_probe.sh Cxx  -- runs all properties' rules against the sub-agent's worktree /tmp/seed2/Cxx
+# usage: seed2_probe.sh Cxx  -- runs all properties' rules against the sub-agent's worktree ${SEEDBASE:-/tmp/seed2}/Cxx
 export GOFLAGS=-mod=mod GOPROXY=off GOSUMDB=off GOTOOLCHAIN=local; unset GOWORK
 id=$1; EV=$(mktemp -d /tmp/s2ev.XXXX)
-( cd /tmp/seed2/$id && git diff --stat | tail -1 )
-/verif/bin/verifchk -repo /tmp/seed2/$id -prop all -tier ${TIER:-quick} -evidence $EV 2>&1 | grep -A4 "^VIOLATION" | cut -c1-330
+( cd ${SEEDBASE:-/tmp/seed2}/$id && git diff --stat | tail -1 )
+/verif/bin/verifchk -repo ${SEEDBASE:-/tmp/seed2}/$id -prop all -tier ${TIER:-quick} -evidence $EV 2>&1 | grep -A4 "^VIOLATION" | cut -c1-330
 rm -rf $EV
 echo "PROBE-DONE $id"
